@@ -6,6 +6,8 @@ namespace PsdVerif.Generated.Reopen
 def readerKeys : List String := ["LAYER_16", "LAYER_32"]
 /-- … else its final `return` -/
 def readerFallback : String := "self.layer_and_mask_information.layer_info"
+/-- `PSD._get_layer_info`: every attribute chain rooted at `self` it reads (maximal ones, sorted) -/
+def readerReads : List String := ["self.layer_and_mask_information.layer_info", "self.layer_and_mask_information.tagged_blocks"]
 /-- `PSD._iter_layers`: the expression bound to `layer_info` -/
 def iterSource : String := "self._get_layer_info()"
 /-- `PSDImage._init`: what the record loop iterates over -/
